@@ -256,6 +256,29 @@ def task(args):
                 for body in (struct.pack('!H', len(field)) + field + b'\x00\x00', b'\x00\x00\x00\x00' + field):
                     for name in ('Update.parse', 'Update.parse(add-path ipv4)'):
                         check(name, body, 'ipv4 field tail', must_not_raise=True)
+    elif kind == 'pmsi':
+        # PMSI tunnel attribute (22): every tunnel type x identifiers built as RFC 6388 mLDP FEC elements (type, address family, root
+        # address, opaque value made of basic / extended / unknown / truncated opaque elements) and as plain addresses
+        import itertools as _it
+        basic = lambda v: b'\x01' + struct.pack('!H', len(v)) + v                       # noqa
+        ext = lambda t, v: b'\xff' + struct.pack('!HH', t, len(v)) + v                  # noqa
+        elems = [basic(b'\x00\x00\x00\x01'), basic(b''), ext(1, b'\x00\x00\x00\x01'), ext(0, b''), b'\xff', b'\xff\x00', b'\xff\x00\x01\x00',
+                 b'\x09\x00\x02\xaa\xbb', b'\x01\x00\x09\xaa', b'\x07\x00\x08' + bytes(8)]
+        opaques = [b''] + elems + [a + b for a, b in _it.product(elems, repeat=2)]
+        idents = [b'', b'\x0a\x00\x00\x01', b'\x0a\x00\x00\x01\xe0\x00\x00\x01', bytes(16)]
+        for fec in (6, 7, 8, 0, 255):
+            for af, root in ((1, b'\x0a\x00\x00\x01'), (2, bytes(15) + b'\x01'), (0, b''), (1, b'\x0a')):
+                for op in opaques:
+                    idents.append(bytes([fec]) + struct.pack('!HB', af, len(root)) + root + struct.pack('!H', len(op)) + op)
+                idents.append(bytes([fec]) + struct.pack('!HB', af, len(root)) + root + struct.pack('!H', 40) + elems[2])      # opaque length overruns
+        for ttype in args[1]:
+            for flags in (0, 1):
+                for ident in idents:
+                    val = bytes([flags, ttype]) + b'\x00\x03\xe9' + ident
+                    if len(val) > 255:
+                        continue
+                    body = b'\x00\x00' + struct.pack('!H', 3 + len(val) + 4) + b'\x40\x01\x01\x00' + struct.pack('!BBB', 0xC0, 22, len(val)) + val
+                    check('Update.parse', body, 'pmsi tunnel type %d' % ttype, must_not_raise=True)
     elif kind == 'drift':
         # the work for the same octets must not grow with the number of earlier decodes in the process (an error object, a cache, a
         # list that is kept and grows): every interpreter step is counted here, library code included, for the 5th and the 150th call
@@ -421,6 +444,8 @@ def run(tier, seed):
         tasks.append(('nested', lt[i:i + 8]))
         tasks.append(('hugetlv', lt[i:i + 8]))
     tasks.append(('drift',))
+    for tt in range(0, 10, 2):
+        tasks.append(('pmsi', [tt, tt + 1] + ([200 + tt] if tier == 'thorough' else [])))
     for lo in range(0, 256, 32):
         tasks.append(('dupattr', lo, lo + 32))
     for i in range(0, len(lt), 16):
